@@ -639,4 +639,220 @@ theorem source_entries_run_same_implementation :
 
 end Source
 
+
+/-! ## 5. Call histories -/
+
+/-- Contract (A-ir): a serialised model is normal — deserialising and re-serialising it gives it back
+(`N (ser m) = ser m`; for `m = de M` this is the idempotence of `N`). -/
+def SerRoundTrip (s : Serde P I) : Prop := ∀ m : Rec I, s.ser (s.de (s.ser m)) = s.ser m
+
+/-- Contract on the IR-level transformations: they see of a model only what serialises. -/
+def Extensional (s : Serde P I) (T : Api → Opts W → Rec I → Rec I) : Prop :=
+  ∀ (f : Api) (o : Opts W) (m₁ m₂ : Rec I), s.ser m₁ = s.ser m₂ → s.ser (T f o m₁) = s.ser (T f o m₂)
+
+/-- Contract on `ConvertVersionPass` (it inlines first): no model-local function survives it. -/
+def ConvertInlinesAll (s : Serde P I) (T : Api → Opts W → Rec I → Rec I) : Prop :=
+  ∀ (o : Opts W) (m : Rec I), s.ser (T .convertVersion o m) .functions = s.empty
+
+/-- **Any wrapper called on a proto that is itself a serialisation** (what every whole-model wrapper returns or
+leaves in its argument): the proto entry's result is the serialisation of the IR entry's result on the model that
+was serialised — for *every* API, `convert_version` and `rewrite(·, [])` included, with no normality hypothesis. -/
+theorem second_call_proto_eq_ir (s : Serde P I) (T : Api → Opts W → Rec I → Rec I)
+    (hrt : SerRoundTrip s) (hext : Extensional s T) (hframe : FrameOK s T .convertVersion)
+    (hal : AliasConfined s) (hinl : ConvertInlinesAll s T) (f : Api) (o : Opts W) (m : Rec I) :
+    (protoPath s T f o (s.ser m)).result = s.ser ((irPath T f o m).result) := by
+  have hfw : ∀ e, forward f e o = o := fun e => options_forwarded_unchanged f e o
+  have key : s.ser (T f o (s.de (s.ser m))) = s.ser (T f o m) := hext f o _ _ (hrt m)
+  cases f with
+  | rewrite e =>
+    cases e
+    · simp only [protoPath, irPath, Outcome.result, hfw]; exact key
+    · rfl
+  | convertVersion =>
+    simp only [protoPath, irPath, Outcome.result, hfw]
+    rw [← key]
+    funext c
+    by_cases hk : keptByConvert c = true
+    · have h1 : s.ser (T .convertVersion o (s.de (s.ser m))) c = s.ser m c := by
+        rw [hframe o (s.de (s.ser m)) c (by cases c <;> simp_all [keptByConvert, touches, Carrier.inGraph]), hrt m]
+      have h2 := hal (s.ser m) (T .convertVersion o (s.de (s.ser m))) c
+        (by cases c <;> simp_all [keptByConvert, Carrier.holdsTensors, Carrier.inGraph])
+      rw [h1]
+      cases c <;> simp_all [spliceConverted, keptByConvert, Carrier.inGraph]
+    · have hf := hinl o (s.de (s.ser m))
+      cases c <;> simp_all [spliceConverted, keptByConvert, Carrier.inGraph]
+  | _ => simp only [protoPath, irPath, Outcome.result, hfw]; exact key
+
+/-- **Histories on a serialised model**: any sequence of wrapper calls (any length, any APIs, any options), each
+applied to what the previous one produced, gives on the proto side the serialisation of what the same sequence of
+in-place IR calls gives (induction over the history). -/
+theorem history_on_serialised (s : Serde P I) (T : Api → Opts W → Rec I → Rec I)
+    (hrt : SerRoundTrip s) (hext : Extensional s T) (hframe : FrameOK s T .convertVersion)
+    (hal : AliasConfined s) (hinl : ConvertInlinesAll s T) (h : History W) (m : Rec I) :
+    protoChain s T h (s.ser m) = s.ser (irChain T h m) := by
+  induction h generalizing m with
+  | nil => rfl
+  | cons c rest ih =>
+    obtain ⟨f, o⟩ := c
+    show protoChain s T rest (protoPath s T f o (s.ser m)).result = s.ser (irChain T rest (irPath T f o m).result)
+    rw [second_call_proto_eq_ir s T hrt hext hframe hal hinl f o m]
+    exact ih _
+
+/-- **The property's first clause for call histories**: for every history whose first call is a whole-model
+wrapper — whatever follows — chaining the proto entries from the caller's proto `M` equals serialising the chain of
+IR entries from `de M`.  (A first call `convert_version` / `rewrite(M, [])` keeps caller bytes: there the statement
+needs the normality of `convert_proto_eq_ir_partial`; from the second call on nothing is needed.) -/
+theorem history_proto_eq_ir (s : Serde P I) (T : Api → Opts W → Rec I → Rec I)
+    (hrt : SerRoundTrip s) (hext : Extensional s T) (hframe : FrameOK s T .convertVersion)
+    (hal : AliasConfined s) (hinl : ConvertInlinesAll s T)
+    (f : Api) (o : Opts W) (hf : f.wholesale = true) (rest : History W) (M : Rec P) :
+    protoChain s T ((f, o) :: rest) M = s.ser (irChain T ((f, o) :: rest) (s.de M)) := by
+  show protoChain s T rest (protoPath s T f o M).result = s.ser (irChain T rest (irPath T f o (s.de M)).result)
+  rw [proto_eq_ir s T o f hf M]
+  exact history_on_serialised s T hrt hext hframe hal hinl rest _
+
+
+/-- **`convert_version` right after any whole-model wrapper** satisfies proto = ser∘ir∘de with *no* normality
+hypothesis on the input: the proto it receives is a serialisation, hence normal on the carriers the branch keeps. -/
+theorem convert_after_wrapper_proto_eq_ir (s : Serde P I) (T : Api → Opts W → Rec I → Rec I)
+    (hrt : SerRoundTrip s) (hext : Extensional s T) (hframe : FrameOK s T .convertVersion)
+    (hal : AliasConfined s) (hinl : ConvertInlinesAll s T)
+    (f : Api) (o₁ o₂ : Opts W) (hf : f.wholesale = true) (M : Rec P) :
+    (protoPath s T .convertVersion o₂ (protoPath s T f o₁ M).result).result
+      = s.ser ((irPath T .convertVersion o₂ (s.de (protoPath s T f o₁ M).result)).result) := by
+  rw [proto_eq_ir s T o₁ f hf M, second_call_proto_eq_ir s T hrt hext hframe hal hinl]
+  exact (hext .convertVersion _ _ _ (hrt _)).symm
+
+/-- Non-vacuity of the five contracts together, with a serde that is **not** a bijection (the IR carries a bit
+that does not serialise: `ser` halves, `de` doubles) and transformations that really change their frame; the
+three-call history `optimize; convert_version; fold_constants` then changes the model. -/
+example : ∃ (s : Serde Nat Nat) (T : Api → Opts Unit → Rec Nat → Rec Nat),
+    SerRoundTrip s ∧ Extensional s T ∧ FrameOK s T .convertVersion ∧ AliasConfined s ∧ ConvertInlinesAll s T ∧
+    (∃ m : Rec Nat, s.de (s.ser m) ≠ m) ∧
+    protoChain s T [(.optimize, fun _ => ()), (.convertVersion, fun _ => ()), (.foldConstants, fun _ => ())]
+      (fun _ => 5) .nodes ≠ 5 := by
+  refine ⟨⟨fun M c => M c * 2, fun m c => m c / 2, 0, fun M _ => M, fun M _ => M⟩,
+    fun f _ m c => if f = .convertVersion ∧ c = .functions then 0 else if touches f c then m c + 2 else m c,
+    ?_, ?_, ?_, ?_, ?_, ⟨fun _ => 1, ?_⟩, ?_⟩
+  · intro m; funext c; show m c / 2 * 2 / 2 = m c / 2; omega
+  · intro f o m₁ m₂ h; funext c
+    have hc : m₁ c / 2 = m₂ c / 2 := congrFun h c
+    show (if f = .convertVersion ∧ c = .functions then 0 else if touches f c then m₁ c + 2 else m₁ c) / 2
+       = (if f = .convertVersion ∧ c = .functions then 0 else if touches f c then m₂ c + 2 else m₂ c) / 2
+    split
+    · rfl
+    · split <;> omega
+  · intro o m c hc
+    show (if Api.convertVersion = .convertVersion ∧ c = .functions then 0 else if touches .convertVersion c then m c + 2 else m c) / 2 = m c / 2
+    cases c <;> simp_all [touches]
+  · intro M m' c _; rfl
+  · intro o m; show (if Api.convertVersion = .convertVersion ∧ Carrier.functions = .functions then 0 else _) / 2 = 0
+    simp
+  · intro h; have := congrFun h Carrier.nodes; revert this; decide
+  · decide
+
+/-! ### Which object holds what after a history -/
+
+/-- A call that hands back a *new* proto (`optimize`, `rewrite` with rules, `replace_functions`). -/
+def returnsFresh (f : Api) : Bool := !f.inPlaceOnProto && f != .rewrite true
+
+/-- The object the next call receives holds the chain's result, whichever object that is. -/
+theorem track_current_is_chain (s : Serde P I) (T : Api → Opts W → Rec I → Rec I) (h : History W) (M : Rec P) :
+    (protoTrack s T h M).current = protoChain s T h M := by
+  suffices H : ∀ (h : History W) (t : Track P), (h.foldl (protoTrackStep s T) t).current = protoChain s T h t.current
+    from H h ⟨M, none⟩
+  intro h
+  induction h with
+  | nil => intro t; rfl
+  | cons c rest ih =>
+    intro t
+    obtain ⟨f, o⟩ := c
+    show (rest.foldl (protoTrackStep s T) (protoTrackStep s T t (f, o))).current = protoChain s T rest (protoPath s T f o t.current).result
+    rw [ih]
+    congr 1
+    rcases t with ⟨orig, _ | cur⟩ <;> cases f with
+    | rewrite e => cases e <;> rfl
+    | _ => rfl
+
+
+/-- **In-place calls and `rewrite(·, [])` keep working on the caller's own object**: after a history made only
+of such calls the caller's object *is* the current object and holds the whole history's result. -/
+theorem history_inplace_prefix_mutates_original (s : Serde P I) (T : Api → Opts W → Rec I → Rec I)
+    (h : History W) (hh : ∀ c ∈ h, returnsFresh c.1 = false) (M : Rec P) :
+    protoTrack s T h M = ⟨protoChain s T h M, none⟩ := by
+  suffices H : ∀ (h : History W) (X : Rec P), (∀ c ∈ h, returnsFresh c.1 = false) →
+      h.foldl (protoTrackStep s T) ⟨X, none⟩ = ⟨protoChain s T h X, none⟩ from H h M hh
+  intro h
+  induction h with
+  | nil => intro X _; rfl
+  | cons c rest ih =>
+    intro X hh
+    obtain ⟨f, o⟩ := c
+    have hf : returnsFresh f = false := hh (f, o) (List.mem_cons_self ..)
+    have hstep : protoTrackStep s T ⟨X, none⟩ (f, o) = ⟨(protoPath s T f o X).result, none⟩ := by
+      cases f with
+      | rewrite e => cases e <;> first | rfl | simp [returnsFresh, Api.inPlaceOnProto] at hf
+      | optimize => simp [returnsFresh, Api.inPlaceOnProto] at hf
+      | replaceFunctions => simp [returnsFresh, Api.inPlaceOnProto] at hf
+      | _ => rfl
+    show rest.foldl (protoTrackStep s T) (protoTrackStep s T ⟨X, none⟩ (f, o)) = _
+    rw [hstep, ih _ (fun c hc => hh c (List.mem_cons_of_mem _ hc))]
+    rfl
+
+/-- Once the current object is a fresh proto, no later call reaches the caller's original. -/
+theorem track_original_out_of_reach (s : Serde P I) (T : Api → Opts W → Rec I → Rec I)
+    (h : History W) (orig cur : Rec P) :
+    (h.foldl (protoTrackStep s T) ⟨orig, some cur⟩).orig = orig := by
+  induction h generalizing cur with
+  | nil => rfl
+  | cons c rest ih =>
+    obtain ⟨f, o⟩ := c
+    show (rest.foldl (protoTrackStep s T) (protoTrackStep s T ⟨orig, some cur⟩ (f, o))).orig = orig
+    cases f with
+    | rewrite e => cases e <;> exact ih _
+    | _ => exact ih _
+
+/-- **The caller's object after an arbitrary history.**  Split the history at its first call that returns a
+fresh proto (`pre` = in-place calls and `rewrite(·, [])`, then `f`, then anything): the caller's object holds
+what `f` left in its argument when called on the result of `pre` — every later call, in place or not, works on
+other objects. -/
+theorem history_original_frozen_after_first_fresh (s : Serde P I) (T : Api → Opts W → Rec I → Rec I)
+    (pre rest : History W) (f : Api) (o : Opts W) (hpre : ∀ c ∈ pre, returnsFresh c.1 = false)
+    (hf : returnsFresh f = true) (M : Rec P) :
+    (protoTrack s T (pre ++ (f, o) :: rest) M).orig = (protoPath s T f o (protoChain s T pre M)).argAfter := by
+  unfold protoTrack
+  rw [List.foldl_append]
+  have hp := history_inplace_prefix_mutates_original s T pre hpre M
+  unfold protoTrack at hp
+  rw [hp]
+  show (rest.foldl (protoTrackStep s T) (protoTrackStep s T ⟨protoChain s T pre M, none⟩ (f, o))).orig = _
+  cases f with
+  | rewrite e =>
+    cases e
+    · exact track_original_out_of_reach s T rest _ _
+    · simp [returnsFresh, Api.inPlaceOnProto] at hf
+  | optimize => exact track_original_out_of_reach s T rest _ _
+  | replaceFunctions => exact track_original_out_of_reach s T rest _ _
+  | _ => simp [returnsFresh, Api.inPlaceOnProto] at hf
+
+/-- … which, for `optimize` (names written back) or a serde that does not write through, is exactly the result of
+the in-place prefix: a pure call and everything after it leave the caller's object alone. -/
+theorem history_original_is_inplace_prefix_result (s : Serde P I) (T : Api → Opts W → Rec I → Rec I)
+    (pre rest : History W) (f : Api) (o : Opts W) (hpre : ∀ c ∈ pre, returnsFresh c.1 = false)
+    (hf : returnsFresh f = true) (hr : RestoreOK s) (hna : f ≠ .optimize → NoAlias s) (M : Rec P) :
+    (protoTrack s T (pre ++ (f, o) :: rest) M).orig = protoChain s T pre M := by
+  rw [history_original_frozen_after_first_fresh s T pre rest f o hpre hf M]
+  cases f with
+  | rewrite e =>
+    cases e
+    · exact hna (by simp) _ _
+    · rfl
+  | optimize => exact hr _ _
+  | replaceFunctions => exact hna (by simp) _ _
+  | _ => simp [returnsFresh, Api.inPlaceOnProto] at hf
+
+example : returnsFresh .optimize = true ∧ returnsFresh (.rewrite true) = false ∧ returnsFresh .foldConstants = false ∧
+    (∀ c ∈ ([(.rewrite true, fun _ => ()), (.foldConstants, fun _ => ())] : History Unit), returnsFresh c.1 = false) := by
+  decide
+
 end OV.Props.C15
